@@ -2,6 +2,7 @@ import Mps.Json
 import Mps.Session
 import Mps.Drv.Frame
 import Mps.Blake3
+import Mps.Drv.Start
 /- Driver side of suite `session` (C09). -/
 namespace Mps.Drv.Session
 open Lean Mps
@@ -41,6 +42,10 @@ def runModel (p : Parsed) : Json :=
   -- WriteAny makes NewSession fail; an empty ID inside the slice is written (WriteTo of IDSlice does
   -- not refuse it) — the model follows the code
   if !newSessionOk p.params.ids p.self p.thrInt then jobj [("ok", false)]
+  -- `validateIDs` (present once the regenerated NewSession guards show it, see Mps.Drv.Start.currentCode): no empty
+  -- id; with a group, no zero and no colliding scalar images
+  else if Mps.Drv.Start.currentCode.idGuard &&
+      !(p.params.ids.all (· != []) && (p.params.group.isNone || Mps.Start.scalarsOk p.params.ids)) then jobj [("ok", false)]
   else if !p.auxOk then jobj [("ok", false)]
   else jobj [("ok", true), ("ssid", toHex (ssidWith H p.params))]
 
